@@ -106,6 +106,10 @@ class SymStream:
         if isinstance(n, int) and n == 0:
             self.log.append(("read", start, 0, 0))
             return SBytes([])
+        if not isinstance(n, int) and ctx.branch(ctx.eq(n, 0)):
+            # read(0) returns b"" at any position, also beyond the end
+            self.log.append(("read", start, 0, 0))
+            return SBytes([])
         if ctx.branch(ctx.le(_add(self.pos, n), total)):
             r = self.data.extract(self.pos, n)
             self.pos = _add(self.pos, n)
